@@ -67,4 +67,297 @@ theorem category_builds_scalar {r : Registry} (h : RegInv r) {c : Sym} {ci : Cat
     · rfl
     · simp [exMap, hlo, hhi]
 
+/-! ### C15: the memo tables are semantically invisible -/
+
+/-- every memoised verdict is the verdict the current registry gives -/
+def MemoInv (s : CState) : Prop :=
+  ∀ k v, memoGet s.memo k = some v → v = categoryUnitValid lg s.reg k.1 k.2
+
+/-- `Quantity(category, unit)` as a function of the registry alone -/
+def newQuantityPure (r : Registry) (c u : Sym) : Except ErrKind QObj :=
+  match catGet r.cats c with
+  | none => .error .units
+  | some ci =>
+    if categoryUnitValid lg r c u then finishQuantity lg r ci c u
+    else if isLegacy lg u then
+      if categoryUnitValid lg r c (fixLegacy lg u) then finishQuantity lg r ci c (fixLegacy lg u)
+      else .error .units
+    else .error .units
+
+/-- `ObtainQuantity(unit, None)` as a function of the registry alone -/
+def obtainUPure (r : Registry) (u : Sym) : Except ErrKind QObj :=
+  match resolveDefault lg r u with
+  | .error e => .error e
+  | .ok (c, u') => if c = 0 then .error .type else newQuantityPure lg r c u'
+
+/-- every cached quantity is the one a creation on the current registry yields for its key -/
+def CacheInv (s : CState) : Prop :=
+  ∀ k q, cacheGet s.cache k = some q →
+    match k with
+    | (some c, u, _) => newQuantityPure lg s.reg c u = .ok q
+    | (none, u, _) => obtainUPure lg s.reg u = .ok q
+
+/-- the cache invariant of a session state -/
+def SInv (s : CState) : Prop := MemoInv lg s ∧ CacheInv lg s
+
+/-- no registered unit symbol is itself a legacy spelling (the hypothesis of the `_partial`
+theorems of C15, see `warm_fresh_counterexample`) -/
+def NoLegacySyms (r : Registry) : Prop := ∀ u w, ixGet r.index u = some w → isLegacy lg u = false
+
+theorem sinv_fresh (r : Registry) : SInv lg (CState.fresh r) :=
+  ⟨fun k v h => by simp [CState.fresh, memoGet] at h, fun k q h => by simp [CState.fresh, cacheGet] at h⟩
+
+/-- `s'` extends `s` by memo entries only -/
+def Ext (s s' : CState) : Prop := s'.reg = s.reg ∧ s'.cache = s.cache ∧ (MemoInv lg s → MemoInv lg s')
+
+theorem ext_refl (s : CState) : Ext lg s s := ⟨rfl, rfl, id⟩
+
+theorem ext_trans {a b c : CState} (h1 : Ext lg a b) (h2 : Ext lg b c) : Ext lg a c :=
+  ⟨h2.1.trans h1.1, h2.2.1.trans h1.2.1, fun h => h2.2.2 (h1.2.2 h)⟩
+
+theorem ext_sinv {s s' : CState} (h : Ext lg s s') (hs : SInv lg s) : SInv lg s' := by
+  refine ⟨h.2.2 hs.1, ?_⟩
+  intro k q hk
+  rw [h.2.1] at hk
+  have := hs.2 k q hk
+  rw [h.1]; exact this
+
+theorem check_val {s : CState} (h : MemoInv lg s) (c u : Sym) :
+    (checkCategoryUnit lg s c u).2 = categoryUnitValid lg s.reg c u := by
+  unfold checkCategoryUnit
+  cases hm : memoGet s.memo (c, u) with
+  | none => rfl
+  | some v => exact h _ _ hm
+
+theorem check_ext (s : CState) (c u : Sym) : Ext lg s (checkCategoryUnit lg s c u).1 := by
+  unfold checkCategoryUnit
+  cases hm : memoGet s.memo (c, u) with
+  | some v => exact ext_refl lg s
+  | none =>
+    refine ⟨rfl, rfl, ?_⟩
+    intro h k v hk
+    simp only [memoGet] at hk
+    split at hk
+    · rename_i he; cases hk; subst he; rfl
+    · exact h k v hk
+
+theorem newQuantity_ext (s : CState) (c u : Sym) : Ext lg s (newQuantity lg s c u).1 := by
+  unfold newQuantity
+  cases catGet s.reg.cats c with
+  | none => exact ext_refl lg s
+  | some ci =>
+    simp only
+    have e1 := check_ext lg s c u
+    have e2 := check_ext lg (checkCategoryUnit lg s c u).1 c (fixLegacy lg u)
+    split
+    · exact e1
+    · split
+      · split
+        · exact ext_trans lg e1 e2
+        · exact ext_trans lg e1 e2
+      · exact e1
+
+theorem newQuantity_val {s : CState} (h : MemoInv lg s) (c u : Sym) :
+    (newQuantity lg s c u).2 = newQuantityPure lg s.reg c u := by
+  unfold newQuantity newQuantityPure
+  cases catGet s.reg.cats c with
+  | none => rfl
+  | some ci =>
+    simp only
+    have e1 := check_ext lg s c u
+    have v1 := check_val lg h c u
+    have v2 := check_val lg (e1.2.2 h) c (fixLegacy lg u)
+    rw [e1.1] at v2
+    rw [v1, v2]
+    cases categoryUnitValid lg s.reg c u <;> simp only [Bool.false_eq_true, ↓reduceIte]
+    cases isLegacy lg u <;> simp only [Bool.false_eq_true, ↓reduceIte]
+    cases categoryUnitValid lg s.reg c (fixLegacy lg u) <;> simp only [Bool.false_eq_true, ↓reduceIte]
+
+theorem cacheGet_cons (k : Option Sym × Sym × Bool) (q : QObj) (m : List ((Option Sym × Sym × Bool) × QObj))
+    (key : Option Sym × Sym × Bool) :
+    cacheGet ((k, q) :: m) key = if k = key then some q else cacheGet m key := rfl
+
+/-- a block of the session model is *good* when its result is a function of the registry, it keeps
+the cache invariant and it does not touch the registry -/
+def Good {α : Type} (B : CState → CState × Except ErrKind α) (pure : Registry → Except ErrKind α) : Prop :=
+  ∀ s, SInv lg s → NoLegacySyms lg s.reg → (B s).2 = pure s.reg ∧ SInv lg (B s).1 ∧ (B s).1.reg = s.reg
+
+theorem obtain_good (cap : Bool) (c u : Sym) :
+    Good lg (fun s => obtain lg s cap c u) (fun r => newQuantityPure lg r c u) := by
+  intro s hs _
+  simp only
+  unfold obtain
+  cases hc : cacheGet s.cache (some c, u, cap) with
+  | some q => exact ⟨(hs.2 _ _ hc).symm, hs, rfl⟩
+  | none =>
+    simp only
+    have hv := newQuantity_val lg hs.1 c u
+    have he := newQuantity_ext lg s c u
+    have hs1 := ext_sinv lg he hs
+    cases hn : (newQuantity lg s c u).2 with
+    | error e => rw [hn] at hv; exact ⟨hv, hs1, he.1⟩
+    | ok q =>
+      rw [hn] at hv
+      refine ⟨hv, ⟨?_, ?_⟩, rfl⟩
+      · intro k v hk
+        have := hs1.1 k v hk
+        rw [he.1] at this; exact this
+      · intro k q' hk
+        simp only [cacheGet_cons] at hk
+        split at hk
+        · rename_i hkk
+          cases hk; subst hkk
+          exact hv.symm
+        · rw [he.2.1] at hk
+          exact hs.2 k q' hk
+
+/-- under `NoLegacySyms`, when a unit resolves to "no category" its legacy-fixed spelling cannot
+have been cached under the `None`-category key -/
+theorem resolve_zero_not_cached {r : Registry} (hn : NoLegacySyms lg r) {u u' : Sym} {q : QObj}
+    (hr : resolveDefault lg r u = .ok (0, u')) : obtainUPure lg r u' ≠ .ok q := by
+  -- `u'` has no default category …
+  have h0 : getDefaultCategory lg r u' = .ok 0 := by
+    unfold resolveDefault at hr
+    cases hg : getDefaultCategory lg r u with
+    | error e => rw [hg] at hr; cases hr
+    | ok c0 =>
+      rw [hg] at hr
+      simp only at hr
+      split at hr
+      · rename_i hc
+        cases hr
+        simp at hc
+      · split at hr
+        · cases hg2 : getDefaultCategory lg r (fixLegacy lg u) with
+          | error e => rw [hg2] at hr; cases hr
+          | ok c' =>
+            rw [hg2] at hr
+            simp only [Except.ok.injEq, Prod.mk.injEq] at hr
+            obtain ⟨hc', hu'⟩ := hr
+            subst hc'; subst hu'
+            exact hg2
+        · cases hr
+  intro hq
+  unfold obtainUPure resolveDefault at hq
+  rw [h0] at hq
+  simp only [bne_self_eq_false, Bool.false_eq_true, ↓reduceIte] at hq
+  cases hl : isLegacy lg u' with
+  | false => rw [hl] at hq; simp at hq
+  | true =>
+    rw [hl] at hq
+    simp only [↓reduceIte] at hq
+    cases hg2 : getDefaultCategory lg r (fixLegacy lg u') with
+    | error e => rw [hg2] at hq; simp at hq
+    | ok c' =>
+      rw [hg2] at hq
+      simp only at hq
+      -- `u'` is not registered and its own legacy fix is registered without default category
+      have hc0 : c' = 0 := by
+        unfold getDefaultCategory at h0 hg2
+        cases hi : ixGet r.index u' with
+        | some w => rw [hn u' w hi] at hl; cases hl
+        | none =>
+          rw [hi] at h0
+          simp only [hl, Bool.not_true, Bool.false_eq_true, ↓reduceIte] at h0
+          cases hi2 : ixGet r.index (fixLegacy lg u') with
+          | none => rw [hi2] at h0; cases h0
+          | some w =>
+            rw [hi2] at h0 hg2
+            simp only [Except.ok.injEq] at h0 hg2
+            rw [h0] at hg2
+            exact hg2.symm
+      rw [hc0] at hq
+      simp at hq
+
+theorem obtainU_good (u : Sym) : Good lg (fun s => obtainU lg s u) (fun r => obtainUPure lg r u) := by
+  intro s hs hnl
+  simp only
+  unfold obtainU
+  cases hc : cacheGet s.cache (none, u, false) with
+  | some q => exact ⟨(hs.2 _ _ hc).symm, hs, rfl⟩
+  | none =>
+    simp only
+    unfold obtainUPure
+    cases hr : resolveDefault lg s.reg u with
+    | error e => exact ⟨rfl, hs, by first | rfl | trivial⟩
+    | ok cu =>
+      obtain ⟨c, u'⟩ := cu
+      simp only
+      cases hc2 : cacheGet s.cache (if c = 0 then none else some c, u', false) with
+      | some q =>
+        simp only
+        by_cases hz : c = 0
+        · subst hz
+          simp only [↓reduceIte] at hc2
+          exact absurd (hs.2 _ _ hc2) (resolve_zero_not_cached lg hnl hr)
+        · simp only [hz, ↓reduceIte] at hc2 ⊢
+          exact ⟨(hs.2 _ _ hc2).symm, hs, by first | rfl | trivial⟩
+      | none =>
+        simp only
+        by_cases hz : c = 0
+        · simp only [hz, ↓reduceIte]
+          exact ⟨by first | rfl | trivial, hs, by first | rfl | trivial⟩
+        · simp only [hz, ↓reduceIte]
+          have hv := newQuantity_val lg hs.1 c u'
+          have he := newQuantity_ext lg s c u'
+          have hs1 := ext_sinv lg he hs
+          cases hn : (newQuantity lg s c u').2 with
+          | error e => rw [hn] at hv; exact ⟨hv, hs1, he.1⟩
+          | ok q =>
+            rw [hn] at hv
+            refine ⟨hv, ⟨?_, ?_⟩, rfl⟩
+            · intro k v hk
+              have := hs1.1 k v hk
+              rw [he.1] at this; exact this
+            · intro k q' hk
+              simp only [cacheGet_cons] at hk
+              split at hk
+              · rename_i hkk
+                cases hk; subst hkk
+                show obtainUPure lg s.reg u = .ok q
+                unfold obtainUPure
+                rw [hr]; simp only [hz, ↓reduceIte]; exact hv.symm
+              · split at hk
+                · rename_i hkk
+                  cases hk; subst hkk
+                  exact hv.symm
+                · rw [he.2.1] at hk
+                  exact hs.2 k q' hk
+
+/-- sequencing of good blocks -/
+theorem good_bind {α β : Type} {B1 : CState → CState × Except ErrKind α} {p1 : Registry → Except ErrKind α}
+    {B2 : α → CState → CState × Except ErrKind β} {p2 : α → Registry → Except ErrKind β}
+    (h1 : Good lg B1 p1) (h2 : ∀ a, Good lg (B2 a) (p2 a)) :
+    Good lg (fun s => match (B1 s).2 with
+                      | .error e => ((B1 s).1, .error e)
+                      | .ok a => B2 a (B1 s).1)
+      (fun r => match p1 r with
+                | .error e => .error e
+                | .ok a => p2 a r) := by
+  intro s hs hn
+  obtain ⟨v1, i1, r1⟩ := h1 s hs hn
+  simp only
+  rw [v1]
+  cases hp : p1 s.reg with
+  | error e => exact ⟨rfl, i1, r1⟩
+  | ok a =>
+    simp only
+    obtain ⟨v2, i2, r2⟩ := h2 a (B1 s).1 i1 (by rw [r1]; exact hn)
+    rw [r1] at v2
+    exact ⟨v2, i2, r2.trans r1⟩
+
+/-- a block that does not touch the state -/
+theorem good_pure {α : Type} (f : Registry → Except ErrKind α) : Good lg (fun s => (s, f s.reg)) f :=
+  fun _ hs _ => ⟨rfl, hs, rfl⟩
+
+/-- post-processing of the result with a function of the registry -/
+theorem good_map {α β : Type} {B : CState → CState × Except ErrKind α} {p : Registry → Except ErrKind α}
+    (h : Good lg B p) (f : Registry → Except ErrKind α → Except ErrKind β) :
+    Good lg (fun s => ((B s).1, f s.reg (B s).2)) (fun r => f r (p r)) := by
+  intro s hs hn
+  obtain ⟨v, i, r⟩ := h s hs hn
+  simp only
+  rw [v]
+  exact ⟨rfl, i, r⟩
+
 end Barril.Reg
